@@ -196,6 +196,16 @@ def sim_part(tier, rng, drv, res, monitors_on=("ticker", "device_order"), corr=(
                      sample={"scenario": scn, "bus": b, "updates": len(run["trace"].of("update"))} if i < 2 and b == "sync" else None)
             res.count("bus=" + ("sync" if b == "sync" else "held"))
             SC.check_run(scn, run, drv, res, monitors_on=monitors_on, corr=corr, case_extra={"bus": b})
+        if i % 4 == 1 and "start_delays" not in scn:
+            # the same scenario from a configuration FILE through read_configs / build_simulation / TickitSimulation.run(),
+            # as one simulation or divided over several that share the bus
+            fs = SC.as_config_file(scn, rng)
+            b = rng.choice(("sync", "held", "internal"))
+            sd = rng.randrange(1 << 30)
+            run = run_scenario(fs, bus=b, seed=sd)
+            res.case(SC.scn_key(fs) + f"file:{b}", nontrivial=len(run["trace"].of("update")) > len(S.devices(fs)))
+            res.count("from-config-file" + ("-divided" if len(fs["from_file"]) > 1 else ""))
+            SC.check_run(fs, run, drv, res, monitors_on=monitors_on, corr=corr, case_extra={"bus": b, "held_seed": sd})
 
 
 def midtick_part(tier, rng, drv, res):
